@@ -26,7 +26,8 @@ impl Iterator for PyRange {
             return None;
         }
         let out = self.cur;
-        self.cur += self.step;
+        // Stepping past the i64 range means the sequence is exhausted (Python ints do not wrap).
+        self.cur = self.cur.checked_add(self.step).unwrap_or(self.end);
         Some(out)
     }
 }
